@@ -176,7 +176,7 @@ def explore(ctx):
                                  'payload': {'query': c.query, 'input_lines': c.lines, 'expected_lines': want}})
             continue
         got = [l + '\n' for l in out_lines if l != '']
-        want_printed = [l.rstrip() + '\n' for l in want if l.strip() != '' or True]
+        want_printed = [l.rstrip('\r\n') + '\n' for l in want]      # a passed line is printed with its bytes, minus the terminator (fix 7f51c1d)
         want_printed = [w for w in want_printed if w != '\n']
         if got != want_printed:
             missing = [w for w in want_printed if w not in got]
